@@ -9,6 +9,7 @@ package main
 import (
 	"fmt"
 	"math/rand"
+	"runtime"
 	"sync"
 	"time"
 
@@ -130,7 +131,7 @@ func runRegistry(out string, scenarios int) {
 					nOps++
 				}
 			}
-			runWindow(w, plan)
+			runWindow(w, plan, rg)
 			w.Emit(vt.Ev{"ev": "barrier"})
 		}
 	}
@@ -155,7 +156,24 @@ func randomRegOp(rg *rand.Rand, urls, prefixes []string, sc, g int, nclient *int
 	return regOp{kind: "KmsClear"}
 }
 
-func runWindow(w *vt.Writer, plan [][]regOp) {
+func spin(n int) int {
+	x := 0
+	for i := 0; i < n; i++ {
+		x += i
+		if i%64 == 63 {
+			runtime.Gosched()
+		}
+	}
+	return x
+}
+
+func runWindow(w *vt.Writer, plan [][]regOp, rg *rand.Rand) {
+	jitter := make([][]int, len(plan))
+	for g := range plan {
+		for range plan[g] {
+			jitter[g] = append(jitter[g], rg.Intn(400), rg.Intn(400))
+		}
+	}
 	start := make(chan struct{})
 	var wg sync.WaitGroup
 	for g := range plan {
@@ -163,9 +181,11 @@ func runWindow(w *vt.Writer, plan [][]regOp) {
 		go func(g int) {
 			defer wg.Done()
 			<-start
-			for _, o := range plan[g] {
+			for k, o := range plan[g] {
 				w.Emit(o.startEv(g + 1))
+				spin(jitter[g][2*k]) // widen the window between the log lines and the call: more overlap is observed
 				res := o.exec()
+				spin(jitter[g][2*k+1])
 				w.Emit(vt.Ev{"ev": "end", "g": g + 1, "res": res})
 			}
 		}(g)
